@@ -392,6 +392,77 @@ class NeverVerified:
                 yield dict(content_hash=b'abc', length=3, a1=a1, a2=a2, b1=b1, mine=mine)
 
 
+@proof("C01", "buffer.read-close-redownload")
+class BufferReadCloseRedownload:
+    """BOUNDED stand-in on the real BlobBuffer (an in-memory blob is handed out once: leaving the reader drops the bytes): a blob that
+    was downloaded and read - with the blob closed while the reader was still open, or not - can be downloaded AGAIN, and then again
+    becomes verified with exactly the delivered bytes stored and readable; a corrupted second delivery never does"""
+    bounded_only = True
+    note = "close during / after / without reading x second delivery correct / corrupted x 1 or 2 concurrent writers"
+    inputs = dict(case=TInt())
+
+    def run(case):
+        close_mode = case % 3               # 0: no close, 1: blob.close() while the reader is open, 2: close after reading
+        second_ok = (case // 3) % 2 == 0
+        rivals = (case // 6) % 2 == 1
+        good = b'0123456789' * 50
+
+        async def deliver(blob, data, with_rival):
+            w = blob.get_blob_writer('1.1.1.1', 1)
+            r = blob.get_blob_writer('2.2.2.2', 2) if with_rival else None
+            for i in range(0, len(data), 100):
+                if r is not None:
+                    try:
+                        r.write(bytes([data[i] ^ 1]) + data[i + 1:i + 100])
+                    except OSError:
+                        pass
+                try:
+                    w.write(data[i:i + 100])
+                except OSError:
+                    pass
+                await asyncio.sleep(0)
+            await asyncio.sleep(0)
+            await asyncio.sleep(0)
+
+        async def go():
+            problems = []
+            blob = BlobBuffer(asyncio.get_event_loop(), sha384_hex(good), len(good))
+            await deliver(blob, good, rivals)
+            if not blob.get_is_verified():
+                return ['first delivery of a correct copy did not verify the blob']
+            with blob.reader_context() as reader:
+                first = reader.read()
+                if close_mode == 1:
+                    blob.close()
+            if close_mode == 2:
+                blob.close()
+            if first != good:
+                problems.append('first read returned other bytes')
+            second = good if second_ok else good[:-1] + b'X'
+            await deliver(blob, second, rivals)
+            if second_ok:
+                if not blob.get_is_verified():
+                    problems.append('second delivery of a correct copy did not verify the blob')
+                else:
+                    try:
+                        with blob.reader_context() as reader:
+                            if reader.read() != good:
+                                problems.append('verified but other bytes are stored')
+                    except Exception as e:      # noqa
+                        problems.append(f'verified but the stored bytes cannot be read: {e!r}')
+            elif blob.get_is_verified():
+                problems.append('a corrupted second delivery verified the blob')
+            return problems
+        return asyncio.run(go())
+
+    def ensures_no_problem(result):
+        return result == []
+
+    def samples():
+        for case in range(12):
+            yield dict(case=case)
+
+
 @proof("C01", "set_length")
 class SetLength:
     """the announced length of a blob can be set once, to 0..MAX_BLOB_SIZE inclusive; anything else is ignored"""
